@@ -168,6 +168,7 @@ type LRec struct { // removal listener call
 	Val    int64  `json:"v"`
 	Reason int    `json:"r"` // 0 REMOVED 1 EVICTED 2 EXPIRED
 	Task   int    `json:"task"`
+	Slow   int64  `json:"slow,omitempty"` // the stub slept this long inside the call (injected slow listener)
 }
 
 type LdRec struct { // loader invocation
